@@ -1017,6 +1017,17 @@ impl SubCheck for MixedZoneSub {
         let b_same = ZonedDateTime::try_new(c.o.t1 as i128, iso(), tz_utc()).expect("operand");
         let b_other = ZonedDateTime::try_new(c.o.t1 as i128, iso(), tz_rule()).expect("operand");
         let call = |b: &ZonedDateTime| if c.since { a.since_with_provider(b, mk(), provider()) } else { a.until_with_provider(b, mk(), provider()) };
+        // every third cell compares the receiver with the *same instant* in the other zone (a shortcut for equal
+        // instants must not come before the zone check)
+        let equal_instants = (c.o.t0 as i128 + c.inc.unwrap_or(0) as i128 + c.since as i128).rem_euclid(3) == 0;
+        let (b_same, b_other) = if equal_instants {
+            (ZonedDateTime::try_new(c.o.t0 as i128, iso(), tz_utc()).expect("operand"), ZonedDateTime::try_new(c.o.t0 as i128, iso(), tz_rule()).expect("operand"))
+        } else {
+            (b_same, b_other)
+        };
+        if equal_instants {
+            o = o.class("mixed-zones:equal-instants");
+        }
         let same = call(&b_same);
         let mixed = call(&b_other);
         // resolved largest unit: explicit, else the larger of hour and the smallest unit
